@@ -116,7 +116,7 @@ pub fn thumbprint(jwk: &Value) -> Result<String, String> {
 
 #[derive(Clone, Debug, PartialEq)]
 pub enum KeyKind {
-	Rsa(usize), // modulus bits
+	Rsa(usize),              // modulus bits
 	Ec(&'static str, usize), // crv, coordinate size
 	Okp(&'static str),
 }
@@ -167,8 +167,7 @@ pub fn jwk_to_pubkey(jwk: &Value) -> Result<PubKey, String> {
 			let group = EcGroup::from_curve_name(nid).map_err(e2s)?;
 			let bx = BigNum::from_slice(&x).map_err(e2s)?;
 			let by = BigNum::from_slice(&y).map_err(e2s)?;
-			let key = EcKey::from_public_key_affine_coordinates(&group, &bx, &by)
-			.map_err(e2s)?;
+			let key = EcKey::from_public_key_affine_coordinates(&group, &bx, &by).map_err(e2s)?;
 			key.check_key().map_err(e2s)?;
 			Ok(PubKey {
 				kind: KeyKind::Ec(name, size),
@@ -184,7 +183,10 @@ pub fn jwk_to_pubkey(jwk: &Value) -> Result<PubKey, String> {
 			};
 			let x = b64u_dec(jstr(jwk, "x")?)?;
 			if x.len() != size {
-				return Err(format!("jwk: OKP x has {} bytes instead of {size}", x.len()));
+				return Err(format!(
+					"jwk: OKP x has {} bytes instead of {size}",
+					x.len()
+				));
 			}
 			Ok(PubKey {
 				kind: KeyKind::Okp(name),
@@ -287,7 +289,10 @@ pub fn hmac(alg: &str, key: &[u8], data: &[u8]) -> Result<Vec<u8>, String> {
 }
 
 /// Affine coordinates of an EC public key, left-padded by *this* code (independent of to_vec_padded).
-pub fn ec_affine_padded(pkey: &PKey<openssl::pkey::Private>, size: usize) -> Result<(Vec<u8>, Vec<u8>), String> {
+pub fn ec_affine_padded(
+	pkey: &PKey<openssl::pkey::Private>,
+	size: usize,
+) -> Result<(Vec<u8>, Vec<u8>), String> {
 	let e2s = |e: openssl::error::ErrorStack| format!("openssl: {e}");
 	let eck = pkey.ec_key().map_err(e2s)?;
 	let mut ctx = BigNumContext::new().map_err(e2s)?;
